@@ -401,13 +401,14 @@ func (dq *Deque[T]) pop(it *element[T]) (out T, _ bool) {
 
 func (dq *Deque[T]) waitPop(ctx context.Context, direction dqDirection) (out T, _ error) {
 	for {
-		if err := dq.root.getNextOrPrevious(direction).wait(ctx, direction); err != nil {
-			return out, err
-		}
-
 		it, ok := dq.pop(dq.root.getNextOrPrevious(direction))
 		if ok {
 			return it, nil
+		}
+
+		// empty (or closed): wait for the root's neighbor to change.
+		if err := dq.root.wait(ctx, direction); err != nil {
+			return out, err
 		}
 	}
 }
